@@ -423,14 +423,14 @@ pub fn run(cfg: &Cfg, out: &mut Out) {
         one_sequence(&test_repo, out, &mut r, Source::Script(&ops), "script", true);
         return;
     }
-    let n = cfg.n(600, 20_000);
+    let n = cfg.n(4000, 100_000);
     for i in 0..n {
         if i % 100 == 99 { test_repo = TestRepo::init(); }
         let len = if i < 50 { 4 + (i as usize) / 5 } else { r.range(8, 40) };
         one_sequence(&test_repo, out, &mut r, Source::Random { len, low_level: false, probe_root: false }, "main", true);
     }
     let mut r2 = cfg.rng(1010);
-    for i in 0..cfg.n(150, 5_000) {
+    for i in 0..cfg.n(800, 20_000) {
         if i % 100 == 99 { test_repo = TestRepo::init(); }
         let len = r2.range(6, 30);
         one_sequence(&test_repo, out, &mut r2, Source::Random { len, low_level: true, probe_root: false }, "normalisation-only", false);
